@@ -219,7 +219,11 @@ func Join() {
 }
 
 func Atomic(f func()) { f() }
-func Yield()          {}
+func Yield() {
+	if schedOn {
+		schedPoint("?yield", false)
+	}
+}
 func Done()           { panic(assumeFalse{}) }
 
 // Stub redirects a function by full name under the symbolic executor. Natively the
